@@ -409,9 +409,30 @@ pub fn gen_long(rng: &mut Rng, variant: usize) -> ConnCase {
     assemble(rng, &reqs, script, Mode::HalfClose, "i_fam=long")
 }
 
+/// C09 / C11: a Content-Length body far above a MiB of which the application reads nothing, a
+/// little or half before it answers or drops the request; the pipelined successor is served.
+pub fn gen_big_unread(rng: &mut Rng, variant: usize) -> ConnCase {
+    let total = 1_400_000usize;
+    let mut r = AReq::get("/big");
+    r.method = "POST".into();
+    set_body(rng, &mut r, Framing::Len, total);
+    let (ar, rd) = match variant % 3 {
+        0 => (0, 0),
+        1 => (1, 1000),
+        _ => (1, total / 2),
+    };
+    let fin = if variant % 2 == 0 { Finish::Respond(ok_resp(0, rng)) } else { Finish::Drop };
+    let a = Action { as_reader: ar, read_total: rd, buf: *rng.pick(&[512usize, 4096, 100000]), delay_ms: 0, fin, zero_read: false };
+    let reqs = vec![r, AReq::get("/second")];
+    let script = vec![a, simple_action(1, rng)];
+    assemble(rng, &reqs, script, Mode::HalfClose, "i_fam=bigunread i_successors=2")
+}
+
 thread_local! {
     /// set by the caller to make the next `gen_body` use a body far above every buffer (400 kB)
     pub static HUGE: std::cell::Cell<bool> = std::cell::Cell::new(false);
+    /// ... or one above a MiB (1.4 MB)
+    pub static HUGER: std::cell::Cell<bool> = std::cell::Cell::new(false);
 }
 
 pub const BODY_LENS: &[usize] = &[0, 1, 2, 5, 100, 1023, 1024, 1025, 2047, 2048, 2049, 8191, 8192, 8193, 20000];
@@ -441,6 +462,7 @@ pub fn gen_body(rng: &mut Rng, consume_focus: bool, big: bool) -> ConnCase {
     };
     let n = if big && rng.chance(1, 4) { 70000 } else { *rng.pick(BODY_LENS) };
     let n = if HUGE.with(|h| h.replace(false)) { 400_000 } else { n };
+    let n = if HUGER.with(|h| h.replace(false)) { 1_400_000 } else { n };
     let n = if framing == Framing::None { 0 } else { n };
     set_body(rng, &mut r, framing.clone(), n);
     // message framing does not depend on the protocol version: kept-alive HTTP/1.0 requests too
